@@ -39,13 +39,27 @@ pub struct Inner {
     pub log: Vec<(i64, usize, &'static str, usize)>,
     pub delivered: Vec<u8>,
     pub flushes: usize,
+    /// end of the last attributed piece inside the caller's buffer (reset per call)
+    pub cursor: usize,
 }
 pub struct Scripted(pub Rc<RefCell<Inner>>);
 impl Write for Scripted {
     fn write(&mut self, buf: &[u8]) -> io::Result<usize> {
         let mut s = self.0.borrow_mut();
         let p = buf.as_ptr() as usize;
-        let o = if p >= s.base && p + buf.len() <= s.base + s.len { (p - s.base) as i64 } else { -1 };
+        let o = if p >= s.base && p + buf.len() <= s.base + s.len {
+            (p - s.base) as i64
+        } else if s.len > 0 && s.cursor + buf.len() <= s.len {
+            // a copy (a `char` argument is encoded on the stack): it belongs right after the previous piece iff the bytes agree
+            let caller = unsafe { std::slice::from_raw_parts(s.base as *const u8, s.len) };
+            if &caller[s.cursor..s.cursor + buf.len()] == buf {
+                s.cursor as i64
+            } else {
+                -1
+            }
+        } else {
+            -1
+        };
         let r = s.script.pop_front().unwrap_or(Resp::All);
         let (tag, k, res) = match r {
             Resp::All => ("ok", buf.len(), Ok(buf.len())),
@@ -58,6 +72,9 @@ impl Write for Scripted {
             Resp::ErrO => ("eO", 0, Err(io::Error::new(io::ErrorKind::Other, "scripted"))),
         };
         s.log.push((o, buf.len(), tag, k));
+        if o >= 0 {
+            s.cursor = o as usize + k;
+        }
         s.delivered.extend_from_slice(&buf[..k]);
         res
     }
@@ -150,6 +167,7 @@ impl Driver {
             let mut s = self.inner.borrow_mut();
             s.base = buf.as_ptr() as usize;
             s.len = buf.len();
+            s.cursor = 0;
             s.log.clear();
         }
         let res = catch_unwind(AssertUnwindSafe(|| -> io::Result<usize> {
@@ -184,12 +202,19 @@ impl Driver {
                     if pos < t.len() {
                         parts.push(&t[pos..]);
                     }
-                    let r = match parts.len() {
+                    let chars_variant = frags.len() >= 2 && (frags[0] + frags[1]) % 2 == 0 && !t.is_empty();
+                    let r = if chars_variant {
+                        // first character as a `char` argument (fmt::Write::write_char path), the rest as &str
+                        let c0 = t.chars().next().unwrap();
+                        write!(self.w(), "{}{}", c0, &t[c0.len_utf8()..])
+                    } else {
+                    match parts.len() {
                         0 => write!(self.w(), "{}", ""),
                         1 => write!(self.w(), "{}", parts[0]),
                         2 => write!(self.w(), "{}{}", parts[0], parts[1]),
                         3 => write!(self.w(), "{}{}{}", parts[0], parts[1], parts[2]),
                         _ => write!(self.w(), "{}{}{}{}", parts[0], parts[1], parts[2], parts[3..].concat()),
+                    }
                     };
                     r.map(|_| buf.len())
                 }
@@ -484,7 +509,9 @@ pub fn auto_replay(path: &str) -> Value {
                                 "write" => {
                                     let mut p = 0;
                                     while p < b.len() {
-                                        p += w.write(&b[p..]).unwrap();
+                                        let n = w.write(&b[p..]).unwrap();
+                                        assert!(n > 0, "stall: write returned Ok(0) for a non-empty buffer");
+                                        p += n;
                                     }
                                 }
                                 "write_all" => w.write_all(b).unwrap(),
@@ -492,11 +519,22 @@ pub fn auto_replay(path: &str) -> Value {
                                     let mut p = 0;
                                     while p < b.len() {
                                         let m = (p + 1).min(b.len());
-                                        p += w.write_vectored(&[IoSlice::new(&[]), IoSlice::new(&b[p..m]), IoSlice::new(&b[m..])]).unwrap();
+                                        let n = w.write_vectored(&[IoSlice::new(&[]), IoSlice::new(&b[p..m]), IoSlice::new(&b[m..])]).unwrap();
+                                        assert!(n > 0, "stall: write_vectored returned Ok(0) although a later slice has data");
+                                        p += n;
                                     }
                                 }
-                                "write_fmt" => write!(w, "{}", std::str::from_utf8(b).unwrap()).unwrap(),
+                                "write_fmt" => {
+                                    let t = std::str::from_utf8(b).unwrap();
+                                    let mut it = t.chars();
+                                    match it.next() {
+                                        // char argument first: the adapter's write_char path
+                                        Some(c0) if t.len() % 2 == 0 => write!(w, "{}{}", c0, it.as_str()).unwrap(),
+                                        _ => write!(w, "{}", t).unwrap(),
+                                    }
+                                }
                                 "flush" => w.flush().unwrap(),
+                                "lock" => {}
                                 _ => panic!("op"),
                             }
                         }
@@ -603,4 +641,82 @@ pub fn macro_replay(path: &str, what: &str) -> Value {
     }
     let _ = std::io::stdout().flush();
     json!({"summary":{"cases":cases},"results":results})
+}
+
+/// C08 / C03 on the REAL standard streams: TLC-generated operation sequences including `lock` (AutoStream::lock hands the
+/// carried stripper state to the locked stream) replayed on AutoStream<Stdout|Stderr>; the output goes to the real stream
+/// (a pipe read by the driver), cases separated by a marker written through std directly.
+pub fn std_replay(path: &str, stream: &str, choice: &str) -> Value {
+    enum S {
+        O(anstream::AutoStream<std::io::Stdout>),
+        OL(anstream::AutoStream<std::io::StdoutLock<'static>>),
+        E(anstream::AutoStream<std::io::Stderr>),
+        EL(anstream::AutoStream<std::io::StderrLock<'static>>),
+    }
+    impl S {
+        fn w(&mut self) -> &mut dyn Write {
+            match self {
+                S::O(s) => s,
+                S::OL(s) => s,
+                S::E(s) => s,
+                S::EL(s) => s,
+            }
+        }
+        fn lock(self) -> S {
+            match self {
+                S::O(s) => S::OL(s.lock()),
+                S::E(s) => S::EL(s.lock()),
+                other => other,
+            }
+        }
+    }
+    const SEP: &[u8] = b"\n@@SEP@@\n";
+    let mut cases = 0u64;
+    for c in crate::read_lines(path) {
+        let ops: Vec<(String, Vec<u8>)> = c["ops"].as_array().unwrap().iter().map(|o| (o[0].as_str().unwrap().to_string(), crate::bytes_of(&o[1]))).collect();
+        cases += 1;
+        let res = catch_unwind(AssertUnwindSafe(|| {
+            let mut s = if stream == "stdout" {
+                S::O(anstream::AutoStream::new(std::io::stdout(), choice_of(choice)))
+            } else {
+                S::E(anstream::AutoStream::new(std::io::stderr(), choice_of(choice)))
+            };
+            for (op, b) in &ops {
+                match op.as_str() {
+                    "lock" => s = s.lock(),
+                    "write" => {
+                        let mut p = 0;
+                        while p < b.len() {
+                            let n = s.w().write(&b[p..]).unwrap();
+                            assert!(n > 0, "stall");
+                            p += n;
+                        }
+                    }
+                    "write_all" => s.w().write_all(b).unwrap(),
+                    "vectored" => {
+                        let mut p = 0;
+                        while p < b.len() {
+                            let m = (p + 1).min(b.len());
+                            let n = s.w().write_vectored(&[IoSlice::new(&[]), IoSlice::new(&b[p..m]), IoSlice::new(&b[m..])]).unwrap();
+                            assert!(n > 0, "stall");
+                            p += n;
+                        }
+                    }
+                    "write_fmt" => write!(s.w(), "{}", std::str::from_utf8(b).unwrap()).unwrap(),
+                    "flush" => s.w().flush().unwrap(),
+                    _ => panic!("op"),
+                }
+            }
+            let _ = s.w().flush();
+        }));
+        let tail: &[u8] = if res.is_err() { b"<panic>" } else { b"" };
+        if stream == "stdout" {
+            let mut o = std::io::stdout();
+            let _ = o.write_all(tail).and_then(|_| o.write_all(SEP)).and_then(|_| o.flush());
+        } else {
+            let mut o = std::io::stderr();
+            let _ = o.write_all(tail).and_then(|_| o.write_all(SEP)).and_then(|_| o.flush());
+        }
+    }
+    json!({"summary":{"cases":cases}})
 }
